@@ -453,7 +453,7 @@ def coinciding_thresholds(ctx):
 
 
 def run(ctx):
-    ctx.check_proofs(["MPilot.Props.C04"])
+    ctx.check_proofs(["MPilot.Props.C04", "MPilot.Props.C04Hist"])
     model = common.Model()
     n = ctx.budget(40, 1500)
     eems.run_stream(ctx, model, gen(ctx, n, eems.FUZZY_PRODUCERS), "exec:fuzzy-producers", on_result=oracle(ctx))
